@@ -2,6 +2,7 @@ package main
 
 import (
 	"fmt"
+	"regexp"
 )
 
 // ---------- clone ----------
@@ -445,6 +446,62 @@ func (g *gen) libraryDecode(m *Message) {
 	g.p("")
 }
 
+// concatDecode: decoding rec1 ++ rec2 in one call equals decoding rec1 and then rec2
+// (the composition premise behind the one-record inductive steps), on the real closure.
+func (g *gen) concatDecode(m *Message) {
+	n := m.GoName
+	var fs []*Field
+	for _, f := range m.All {
+		if f.Kind != "message" && f.Card != "map" {
+			fs = append(fs, f)
+		}
+		if len(fs) == 2 {
+			break
+		}
+	}
+	if len(fs) == 0 {
+		return
+	}
+	if len(fs) == 1 {
+		fs = append(fs, fs[0])
+	}
+	g.p("func VH_C03_%s__concat() {", n)
+	g.p("\tx := &%s{}", n)
+	g.p("\tif vhChoice(\"filled\", 2) == 1 {")
+	g.p("\t\tvhFill_%s(x)", n)
+	g.p("\t}")
+	g.p("\texp := vhClone_%s(x)", n)
+	for i, f := range fs {
+		g.p("\tvar rec%d []byte", i)
+		g.p("\trec%d = vhTag(rec%d, %d, protowire.%sType, \"r%d\")", i, i, f.Number, wireKind(f), i)
+		g.p("\tfunc() {")
+		mark := g.sb.Len()
+		g.decodeWire(f, fmt.Sprintf("rec%d", i), fmt.Sprintf("\"v%d\"", i), "\t\t")
+		// composition does not depend on magnitudes: one-byte varints keep the path count small
+		seg := g.sb.String()[mark:]
+		seg = regexp.MustCompile(`raw := vhU64\(("[^"]*")\)`).ReplaceAllString(seg, "raw := uint64(vhU8($1) & 0x7f)")
+		seg = regexp.MustCompile(`vh(String|Bytes)\(("[^"]*"), \d+\)`).ReplaceAllString(seg, "vh$1($2, 3)")
+		all := g.sb.String()[:mark]
+		g.sb.Reset()
+		g.sb.WriteString(all)
+		g.sb.WriteString(seg)
+		g.p("\t\t_ = val")
+		g.p("\t}()")
+	}
+	g.p("\t// the unknown record in between must not disturb either neighbour")
+	g.p("\tmid := []byte{0x80, 0xa4, 0x3c, 0x07}")
+	g.p("\te0 := vhUnmarshalStep_%s(exp, rec0, 0)", n)
+	g.p("\te1 := vhUnmarshalStep_%s(exp, mid, 0)", n)
+	g.p("\te2 := vhUnmarshalStep_%s(exp, rec1, 0)", n)
+	g.p("\tvhAssert(\"steps.accept\", e0 == nil && e1 == nil && e2 == nil)")
+	g.p("\tall := append(append(append([]byte{}, rec0...), mid...), rec1...)")
+	g.p("\terr := vhUnmarshalStep_%s(x, all, 0)", n)
+	g.p("\tvhAssert(\"accepts\", err == nil)")
+	g.p("\tvhAssertEq_%s(\"concat\", exp, x)", n)
+	g.p("}")
+	g.p("")
+}
+
 func (g *gen) decodeDrivers(m *Message) {
 	n := m.GoName
 	g.p("func vhUnmarshalStep_%s(x *%s, buf []byte, flags protoiface.UnmarshalInputFlags) error {", n, n)
@@ -608,6 +665,7 @@ func (g *gen) DecodeSource(props []string, msgs []*Message, h2 bool, fieldFilter
 			switch prop {
 			case "C03":
 				g.libraryDecode(m)
+				g.concatDecode(m)
 				for _, f := range m.All {
 					if fieldFilter != nil && !fieldFilter(m, f) {
 						continue
@@ -676,8 +734,20 @@ func (g *gen) totalCommon() {
 	g.p("\tcase 5:")
 	g.p("\t\treturn vhBytes(\"fixed32\", 4)")
 	g.p("\tcase 2:")
-	g.p("\t\tdecl := vhU64(\"decl\")")
 	g.p("\t\tpayload := vhBytes(\"payload\", payloadMax)")
+	g.p("\t\tdecl := vhU64(\"decl\")")
+	if g.tier != "thorough" {
+		g.p("\t\t// quick tier: three regimes of the declared length instead of all ten varint sizes:")
+		g.p("\t\t// honest, a small overshoot, and huge (>= 2^56, incl. negative as int)")
+		g.p("\t\tswitch vhChoice(\"regime\", 3) {")
+		g.p("\t\tcase 0:")
+		g.p("\t\t\tvhAssume(decl == uint64(len(payload)))")
+		g.p("\t\tcase 1:")
+		g.p("\t\t\tvhAssume(decl > uint64(len(payload)) && decl < uint64(len(payload))+100)")
+		g.p("\t\tcase 2:")
+		g.p("\t\t\tvhAssume(decl >= 1<<56)")
+		g.p("\t\t}")
+	}
 	g.p("\t\t// the declared length is arbitrary (also negative/huge as int) but never")
 	g.p("\t\t// shorter than what follows, so the record cannot end before the buffer does")
 	g.p("\t\tvhAssume(int64(decl) < 0 || decl >= uint64(len(payload)))")
@@ -715,7 +785,11 @@ func (g *gen) totalField(m *Message, f *Field) {
 	}
 	g.p("func VH_C06_%s_%s%s() {", n, f.GoName, tag)
 	g.p("\tx := &%s{}", n)
-	g.p("\tvhBuild_%s_%s(x, \"pre\", 0)", n, f.GoName)
+	g.p("\t// pre-state: empty, or every field populated with fixed values (what the record meets")
+	g.p("\t// matters for aliasing/merging paths, not the magnitudes)")
+	g.p("\tif vhChoice(\"pre\", 2) == 1 {")
+	g.p("\t\tvhFill_%s(x)", n)
+	g.p("\t}")
 	g.p("\twt := vhChoice(\"wt\", 8)")
 	g.p("\tbuf := protowire.AppendVarint(nil, uint64(%d)<<3|uint64(wt))", f.Number)
 	g.p("\tbuf = append(buf, vhSpanning(wt, %d)...)", payloadMax)
